@@ -154,5 +154,7 @@ def check(ck: Check) -> None:
     ck.run("R17.2", "duplicate-last-element construction absent", lambda: r17_2(ck))
     ck.run("R17.3", "sibling agreement of the two builders", lambda: r17_3(ck))
     ck.run("R17.4", "proof extraction: path selection and sibling hashing", lambda: r17_4(ck))
+    from .c08 import r08_8
+    ck.run("R08.8", "a reloaded block has its transactions in the order that was committed to (unordered reads rely on rowid order)", lambda: r08_8(ck))
     ck.note("not decided: that proofs verify on concrete lists (only the structural premises R17.3/R17.4); second-preimage resistance between leaves and inner nodes (no domain separation: "
             "root([a,b,c]) == root([H(a||b), c]))")
